@@ -2,6 +2,7 @@
 chunked), SlidingBoundariesArchive and ProximityArchive against the exact models (Model/Grid.v, CVT.v, SlidingIndex.v,
 Base/MixedRadix.v through the extracted runner), the bit-exact PrimFloat model (Model/GridFloat.v evaluated inside Coq) and
 the property's own statement evaluated with exact rational arithmetic on the implementation's outputs."""
+import py2v_grid
 import math
 import random
 from fractions import Fraction
@@ -14,8 +15,12 @@ from common import unq
 
 CONFIG = {
     "cone": ["Base/MixedRadix.v", "Model/Grid.v", "Model/GridFloat.v", "Model/CVT.v", "Model/SlidingIndex.v", "Proofs/GridProofs.v",
-             "Proofs/CVTProofs.v", "Proofs/SlidingIndexProofs.v", "Properties/C03.v", "Model/RunC03.v"],
-    "trusted": ["Model/Grid.v is the exact-rational reading of GridArchive.index_of with a non-wrapping integer cast (= the repaired "
+             "Proofs/CVTProofs.v", "Proofs/SlidingIndexProofs.v", "Generated/GridGen.v", "Refine/GridRefine.v", "Properties/C03.v", "Model/RunC03.v"],
+    "extra_property_files": ["Refine/GridRefine.v"],
+    "trusted": ["harness/py2v_grid.py: fail-closed translator of the index arithmetic of GridArchive.index_of (raw expression, clip bounds, clip-then-cast order) "
+                "and of the clip expression / searchsorted side / max(0, .-1) of SlidingBoundariesArchive.index_of into Generated/GridGen.v on every run; "
+                "Refine/GridRefine.v proves them equal to the models for all arguments",
+                "Model/Grid.v is the exact-rational reading of GridArchive.index_of with a non-wrapping integer cast (= the repaired "
                 "clip-then-cast code, C03_grid_clip_first_eq); float rounding is outside it: the exact stream compares only inputs "
                 "farther from every cell edge than a rounding margin, near-edge inputs are decided by monotonicity, by the "
                 "either-adjacent-cell clause and bit-exactly by Model/GridFloat.v (PrimFloat, evaluated by vm_compute, not extracted)",
@@ -1288,6 +1293,7 @@ def load_corpus():
 
 
 def check(rep, tier, seed, driver):
+    py2v_grid.report(rep)
     rng = random.Random(seed)
     quick = tier == "quick"
     ctx = Ctx(rep, driver)
